@@ -229,6 +229,7 @@ class LaneFocus(PlayerDriver):
     def setup(self):
         super().setup()
         self.cur_game = self.m.game
+        self.ball_of = {}
         self.own = {}           # player number -> tuple of lane operations applied during that player's turns
         self.seen_lanes = {}    # own history -> (lanes, player number) first observed
 
@@ -242,6 +243,7 @@ class LaneFocus(PlayerDriver):
             # a new game: player numbers start again with fresh players
             self.cur_game = g2
             self.own = {}
+            self.ball_of = {}
             return
         if op[0] in self.focus and active and num is not None:
             self.own[num] = self.own.get(num, ()) + (op[0],)
@@ -252,6 +254,10 @@ class LaneFocus(PlayerDriver):
         if not g or not g.player or not self.m.modes["gm"].active:
             return
         num = g.player.number
+        # the rotation pattern starts afresh with every ball (the mode restarts): ball boundaries are part of the own history
+        if self.ball_of.get(num) != g.player.ball:
+            self.ball_of[num] = g.player.ball
+            self.own[num] = self.own.get(num, ()) + ("|",)
         hist = self.own.get(num, ())
         lanes = tuple(self.m.shots[s].state_name for s in ("la", "lb", "lc"))
         first = self.seen_lanes.setdefault(hist, (lanes, num))
@@ -263,7 +269,8 @@ class LaneFocus(PlayerDriver):
 
     def fingerprint(self):
         grp = self.m.shot_groups["lanes"]
-        return (super().fingerprint(), tuple(sorted(self.own.items())), tuple(sorted((k, v[0]) for k, v in self.seen_lanes.items())),
+        return (super().fingerprint(), tuple(sorted(self.own.items())), tuple(sorted(self.ball_of.items())),
+                tuple(sorted((k, v[0]) for k, v in self.seen_lanes.items())),
                 tuple(self.m.shots[s].state_name for s in ("la", "lb", "lc")),
                 tuple(grp.rotation_pattern) if getattr(grp, "rotation_pattern", None) is not None else None,
                 getattr(grp, "rotation_enabled", None))
